@@ -498,3 +498,22 @@ Theorem C06_spec_signextend_id_closed b x : 0 <= b -> in_word x ->
   in_word (evm_signextend b x) /\ (31 <= b -> evm_signextend b x = x).
 Proof. intros Hb Hx; split; [exact (spec_signextend_closed b x Hb Hx) | exact (spec_signextend_id b x)]. Qed.
 Print Assumptions C06_spec_signextend_id_closed.
+
+(* ---- the SMT-LIB reading (Base/SmtBV.v, by which [denote] reads z3 terms here and in C07/C08/C12):
+   extract and concat are the bit operations, bit by bit, and extract undoes concat *)
+Theorem C06_smt_extract_bits hi lo x i : 0 <= lo <= hi -> 0 <= i ->
+  bvextract hi lo x = Z.land (Z.shiftr x lo) (Z.ones (hi - lo + 1)) /\
+  Z.testbit (bvextract hi lo x) i = if i <? hi - lo + 1 then Z.testbit x (i + lo) else false.
+Proof. intros H Hi; split; [exact (smt_extract_is_shift_mask hi lo x H) | exact (smt_extract_bits hi lo x i H Hi)]. Qed.
+Print Assumptions C06_smt_extract_bits.
+
+Theorem C06_smt_concat_bits m x y i : 0 <= m -> 0 <= y < 2 ^ m -> 0 <= i ->
+  bvconcat m x y = Z.lor (Z.shiftl x m) y /\
+  Z.testbit (bvconcat m x y) i = if i <? m then Z.testbit y i else Z.testbit x (i - m).
+Proof. intros Hm Hy Hi; split; [exact (smt_concat_is_lor m x y Hm Hy) | exact (smt_concat_bits m x y i Hm Hy Hi)]. Qed.
+Print Assumptions C06_smt_concat_bits.
+
+Theorem C06_smt_extract_concat m k x y : 0 < m -> 0 < k -> 0 <= y < 2 ^ m -> 0 <= x < 2 ^ k ->
+  bvextract (m - 1) 0 (bvconcat m x y) = y /\ bvextract (m + k - 1) m (bvconcat m x y) = x.
+Proof. exact (smt_extract_concat m k x y). Qed.
+Print Assumptions C06_smt_extract_concat.
